@@ -6,7 +6,7 @@ from collections import Counter
 
 from symex.api import Case
 from symex import refs
-from symex.env import b_and, b_or, b_not, scalar
+from symex.env import b_and, b_or, b_not
 
 PROPERTY = "C15"
 
@@ -181,19 +181,33 @@ def rates(env):
     return env.real("p_false_pos", lo=0.0, hi=1.0), env.real("p_false_neg", lo=0.0, hi=1.0)
 
 
-def picker(env, exhaustive, ncat, n_sites=1):
+def shots_and_rates(env, shot_options, lean):
+    """num_shots and the error rates.  `lean` (quick tier, exhaustive outcome sequences): symbolic rates are
+    combined with the smallest shot count only, all shot counts with rates 0 (the error model per shot is
+    independent of the other shots; the many-shot cases combine symbolic rates with 33..70 shots)."""
+    if not lean:
+        shots = env.choice("num_shots", shot_options)
+        return (shots,) + rates(env)
+    pfp, pfn = rates(env)
+    symbolic = not isinstance(pfp, float)
+    shots = env.choice("num_shots", shot_options[:1] if symbolic else shot_options)
+    return shots, pfp, pfn
+
+
+def picker(env, exhaustive, ncat, n_sites=1, few=False):
     """outcome chooser for the multinomial stub: `exhaustive` forks over every in-range outcome of every
-    draw; otherwise an arithmetic pattern (offset, stride per shot, stride per site all chosen by the explorer)."""
+    draw; otherwise an arithmetic pattern (offset, stride per shot, stride per site all chosen by the explorer;
+    `few`: one fixed pattern)."""
     if exhaustive:
         return lambda call, row, k: env.choice(f"outcome_{call}_{row}", list(range(k)))
-    a = env.choice("pattern_offset", sorted({0, 1, ncat - 1}))
-    b = env.choice("pattern_shot_stride", [0, 1] if ncat == 2 else [0, ncat - 1])
-    c = env.choice("pattern_site_stride", [0, 1]) if n_sites > 1 else 0
+    a = env.choice("pattern_offset", [1] if few else sorted({0, 1, ncat - 1}))
+    b = env.choice("pattern_shot_stride", [1] if few else [0, 1] if ncat == 2 else [0, ncat - 1])
+    c = env.choice("pattern_site_stride", [1] if few else [0, 1]) if n_sites > 1 else 0
 
     def pick(call, row, k):
         site = call % n_sites
         shot = 32 * (call // n_sites) + row
-        return (a + b * shot + c * site) % k
+        return (a + b * shot + c * min(site, 1)) % k  # (not palindromic in the site index)
 
     return pick
 
@@ -262,15 +276,14 @@ def _finish_sv_dm(env, ins, res, n, shots, pfp, pfn, who):
     return weights
 
 
-def sv_sample(n, shot_options, exhaustive):
+def sv_sample(n, shot_options, exhaustive, lean=False):
     def fn(env):
         T = env.torch
         sv_mod = env.mod("emu_sv.state_vector")
         psi = env.tensor_cplx("psi", (2**n,))
-        shots = env.choice("num_shots", shot_options)
-        pfp, pfn = rates(env)
+        shots, pfp, pfn = shots_and_rates(env, shot_options, lean)
         before = psi.clone()
-        with Instr(env, "emu_sv.state_vector", picker(env, exhaustive, 2**n), share_random=None if exhaustive and n * shots <= 2 else 1) as ins:
+        with Instr(env, "emu_sv.state_vector", picker(env, exhaustive, 2**n, few=lean and not isinstance(pfp, float)), share_random=None if exhaustive and n * shots <= 2 else 1) as ins:
             st = sv_mod.StateVector(psi, gpu=False)
             res = st.sample(num_shots=shots, p_false_pos=pfp, p_false_neg=pfn)
             weights = _finish_sv_dm(env, ins, res, n, shots, pfp, pfn, "StateVector")
@@ -283,7 +296,7 @@ def sv_sample(n, shot_options, exhaustive):
     return fn
 
 
-def dm_sample(n, shot_options, exhaustive):
+def dm_sample(n, shot_options, exhaustive, lean=False):
     def fn(env):
         T = env.torch
         dm_mod = env.mod("emu_sv.density_matrix_state")
@@ -296,10 +309,9 @@ def dm_sample(n, shot_options, exhaustive):
                 rows[i][j] = z
                 rows[j][i] = z.conjugate()
         rho = T.tensor(rows, dtype=T.complex128)
-        shots = env.choice("num_shots", shot_options)
-        pfp, pfn = rates(env)
+        shots, pfp, pfn = shots_and_rates(env, shot_options, lean)
         before = rho.clone()
-        with Instr(env, "emu_sv.density_matrix_state", picker(env, exhaustive, 2**n), share_random=None if exhaustive and n * shots <= 2 else 1) as ins:
+        with Instr(env, "emu_sv.density_matrix_state", picker(env, exhaustive, 2**n, few=lean and not isinstance(pfp, float)), share_random=None if exhaustive and n * shots <= 2 else 1) as ins:
             st = dm_mod.DensityMatrix(rho, gpu=False)
             res = st.sample(num_shots=shots, p_false_pos=pfp, p_false_neg=pfn)
             weights = _finish_sv_dm(env, ins, res, n, shots, pfp, pfn, "DensityMatrix")
@@ -358,15 +370,14 @@ def _canonical_factors(env, n, d, D):
     return fs
 
 
-def mps_sample(n, d, D, shot_options, exhaustive, canonical=False):
+def mps_sample(n, d, D, shot_options, exhaustive, canonical=False, lean=False):
     def fn(env):
         T = env.torch
         mps_mod = env.mod("emu_mps.mps")
         factors = _canonical_factors(env, n, d, D) if canonical else _mps_factors(env, n, d, D)
         kept = [f.clone() for f in factors]
-        shots = env.choice("num_shots", shot_options)
-        pfp, pfn = rates(env)
-        with Instr(env, "emu_mps.mps", picker(env, exhaustive, d, n), share_random=None if exhaustive and n * shots <= 2 else 1) as ins:
+        shots, pfp, pfn = shots_and_rates(env, shot_options, lean)
+        with Instr(env, "emu_mps.mps", picker(env, exhaustive, d, n, few=lean and not isinstance(pfp, float)), share_random=None if exhaustive and n * shots <= 2 else 1) as ins:
             st = mps_mod.MPS(list(factors), orthogonality_center=0, num_gpus_to_use=0, eigenstates=EIG[d])
             raised = False
             try:
@@ -462,7 +473,9 @@ META = {
         "measured bit exactly one random number r is consumed and the bit reads 1 iff (0 and r < p_false_pos) or (1 and "
         "not r < p_false_neg) under the path condition; the error model is applied iff a rate is positive (the and/or "
         "precedence in MPS.sample included), qutrit MPS raise iff p_false_pos > 0. Concrete per path: counts sum to "
-        "num_shots across the 32-shot batches, bit order (atom 0 first), leakage level reads '0'."
+        "num_shots across the 32-shot batches, bit order (atom 0 first), leakage level reads '0'. "
+        "Observed behaviour for qutrit MPS (see `notes`): with p_false_neg > 0 = p_false_pos the two-level error model is "
+        "applied to the bitstring (leakage already read as '0'), which agrees with the property as stated."
     ),
     "outside": [
         "that torch.multinomial / random.random draw from the distributions they are given (the statistical claim)",
@@ -511,9 +524,9 @@ def cases(tier):
             out.append(
                 Case(
                     f"{name}_sample_n{n}_exhaustive",
-                    mk(n, ex_shots, True),
+                    mk(n, ex_shots, True, lean=quick),
                     covers=cov,
-                    bounds={"n_qubits": n, "num_shots": ex_shots, "outcomes": "all sequences"},
+                    bounds={"n_qubits": n, "num_shots": ex_shots, "outcomes": "all sequences", "rates x shots": "symbolic rates with 1 shot only" if quick else "full product"},
                     canaries=["lsb_first", "swap_rates", "errors_need_both", wm] if n > 1 else ["swap_rates", "errors_need_both", wm],
                     weight=(2**n) ** max(ex_shots) * 4,
                 )
@@ -522,9 +535,9 @@ def cases(tier):
             out.append(
                 Case(
                     f"{name}_sample_n{n}_many",
-                    mk(n, big, False),
+                    mk(n, big, False, lean=quick),
                     covers=cov,
-                    bounds={"n_qubits": n, "num_shots": big, "outcomes": "arithmetic patterns", "random numbers": "one shared symbolic value"},
+                    bounds={"n_qubits": n, "num_shots": big, "outcomes": "arithmetic patterns", "random numbers": "one shared symbolic value", "rates x shots x patterns": "symbolic rates with the first shot count and one pattern" if quick else "full product"},
                     canaries=["lsb_first", wm],
                     weight=40,
                 )
@@ -535,9 +548,9 @@ def cases(tier):
         out.append(
             Case(
                 f"mps_sample_n{n}_d{d}_D{D}_exhaustive",
-                mps_sample(n, d, D, ex_shots, True),
+                mps_sample(n, d, D, ex_shots, True, lean=quick),
                 covers=COVERS_MPS,
-                bounds={"n_atoms": n, "dim": d, "bond_dim": D, "num_shots": ex_shots, "outcomes": "all sequences"},
+                bounds={"n_atoms": n, "dim": d, "bond_dim": D, "num_shots": ex_shots, "outcomes": "all sequences", "rates x shots": "symbolic rates with 1 shot only" if quick else "full product"},
                 canaries=["lsb_first", "swap_rates", "errors_need_both", "weights_shifted"] + (["leak_reads_one", "qutrit_never_raises"] if d == 3 else []),
                 weight=(d**n) ** max(ex_shots) * 8,
             )
@@ -547,9 +560,9 @@ def cases(tier):
         out.append(
             Case(
                 f"mps_sample_n{n}_d{d}_D{D}_many",
-                mps_sample(n, d, D, big, False),
+                mps_sample(n, d, D, big, False, lean=quick),
                 covers=COVERS_MPS,
-                bounds={"n_atoms": n, "dim": d, "bond_dim": D, "num_shots": big, "outcomes": "arithmetic patterns", "random numbers": "one shared symbolic value"},
+                bounds={"n_atoms": n, "dim": d, "bond_dim": D, "num_shots": big, "outcomes": "arithmetic patterns", "random numbers": "one shared symbolic value", "rates x shots x patterns": "symbolic rates with the first shot count and one pattern" if quick else "full product"},
                 canaries=["lsb_first", "weights_shifted"] + (["leak_reads_one"] if d == 3 else []),
                 weight=60,
             )
@@ -565,4 +578,6 @@ def cases(tier):
                 weight=30,
             )
         )
+    for c in out:
+        c.deadline_s = 1500.0  # (shared machine: leave room for contention)
     return out
